@@ -286,6 +286,16 @@ func solveOne(o *Obligation, file string, opts solveOpts) *SolveResult {
 				qfModel = out
 			}
 		}
+		// next: only the quantified facts that share a spec function or heap symbol with the goal
+		// (dropping assumptions is sound for a proof; a failure here decides nothing)
+		if rel, ok := goalRelevant(file); ok {
+			status, out, ms := runSolver(solvers[0], rel, 3, opts.seed)
+			res.Tried = append(res.Tried, fmt.Sprintf("%s(rel):%s:%dms", solvers[0].name, status, ms))
+			if status == "unsat" {
+				res.Status, res.Solver, res.Ms, res.Output = status, solvers[0].name+"(rel)", ms, out
+				return res
+			}
+		}
 	}
 	race := []solverSpec{solvers[0], solvers[1], solvers[2]}
 	ch := make(chan answer, len(race))
@@ -371,4 +381,57 @@ func dropQuantified(file string) (string, bool) {
 	qf := strings.TrimSuffix(file, ".smt2") + ".qf.smt2"
 	os.WriteFile(qf, []byte(strings.Join(out, "\n")), 0o644)
 	return qf, true
+}
+
+// goalRelevant writes a copy of the query that keeps, of the quantified assertions, only those
+// sharing a spec function or a heap/global symbol with the goal.
+func goalRelevant(file string) (string, bool) {
+	data, err := os.ReadFile(file)
+	if err != nil {
+		return "", false
+	}
+	lines := strings.Split(string(data), "\n")
+	goal := ""
+	for _, ln := range lines {
+		if strings.HasPrefix(ln, "(assert (not ") {
+			goal = ln
+		}
+	}
+	if goal == "" {
+		return "", false
+	}
+	gs := map[string]bool{}
+	symbolsIn(goal, gs)
+	rel := map[string]bool{}
+	for s := range gs {
+		if strings.HasPrefix(s, "spec_") || strings.HasPrefix(s, "|") {
+			rel[s] = true
+		}
+	}
+	var out []string
+	dropped := false
+	for _, ln := range lines {
+		if strings.HasPrefix(ln, "(assert ") && (strings.Contains(ln, "(forall ") || strings.Contains(ln, "(exists ")) && ln != goal {
+			ls := map[string]bool{}
+			symbolsIn(ln, ls)
+			keep := false
+			for s := range ls {
+				if rel[s] {
+					keep = true
+					break
+				}
+			}
+			if !keep {
+				dropped = true
+				continue
+			}
+		}
+		out = append(out, ln)
+	}
+	if !dropped {
+		return "", false
+	}
+	f := strings.TrimSuffix(file, ".smt2") + ".rel.smt2"
+	os.WriteFile(f, []byte(strings.Join(out, "\n")), 0o644)
+	return f, true
 }
